@@ -74,11 +74,12 @@ for ENTRY in $PLAN; do
   EXECS=0; for f in "$WORK/$TARGET"-p*/log; do e=$(grep -o 'stat::number_of_executed_units: [0-9]*' "$f" | grep -o '[0-9]*$' | tail -1); EXECS=$((EXECS + ${e:-0})); done
   CORPUS=$(cat "$WORK/$TARGET"-p*/corpus/* 2>/dev/null | wc -c)
   NCORP=$(ls "$WORK/$TARGET"-p*/corpus 2>/dev/null | wc -l)
-  ARTIFACTS=0; CONFIRMED=0; UNCONFIRMED=0
+  ARTIFACTS=0; CONFIRMED=0; UNCONFIRMED=0; SLOW=0
   for a in "$WORK/$TARGET"-p*/artifacts/*; do
     [ -f "$a" ] || continue
     ARTIFACTS=$((ARTIFACTS+1))
     case "$(basename "$a")" in
+      slow-unit-*) ARTIFACTS=$((ARTIFACTS-1)); SLOW=$((SLOW+1)); continue;;   # libFuzzer's note about a slow input, not a failure
       oom-*|leak-*) echo "INCONCLUSIVE property=$PROP libFuzzer reported $(basename "$a") (memory limit); not a verdict about the property" >&2; mkdir -p "$OUT/replays"; cp "$a" "$OUT/replays/$PROP-fuzz-$(basename "$a")"; [ $RC -eq 0 ] && RC=2; continue;;
     esac
     TOUT=$("$BIN" fuzz-triage "$PROP" "$TARGET" "$a"); T=$?
@@ -103,7 +104,7 @@ except Exception:
 e["coverage"].setdefault("fuzz", {})["$TARGET"] = {"engine": "libFuzzer (cargo-fuzz, AddressSanitizer, debug assertions)", "oracle_in_target": "$PROP",
   "input_decoding": "hand-written data provider -> the property's Case (harness/src/props/structured.rs)" if "$TARGET" == "strat" else "byte-level (mode byte + buffer / document / signal list + payload)",
   "processes": $N, "runs_per_process": $RUNS, "executions": $EXECS, "seed_corpus": "12 processes from a generated corpus, 4 from an empty corpus",
-  "final_corpus_files": $NCORP, "final_corpus_bytes": $CORPUS, "artifacts": $ARTIFACTS, "confirmed_violations": $CONFIRMED, "candidates_not_confirmed": $UNCONFIRMED, "wall_s": $ELAPSED}
+  "final_corpus_files": $NCORP, "final_corpus_bytes": $CORPUS, "artifacts": $ARTIFACTS, "confirmed_violations": $CONFIRMED, "candidates_not_confirmed": $UNCONFIRMED, "slow_units_noted": $SLOW, "wall_s": $ELAPSED}
 e["wall_s"] = round(e.get("wall_s", 0) + $ELAPSED, 3)
 if $CONFIRMED: e["violations"] = e.get("violations", 0) + $CONFIRMED
 json.dump(e, open(p, "w"), indent=1)
